@@ -1,9 +1,40 @@
 (* C17, codec2 part: base-64 (M1), endian stores/loads (M3), socket addresses (M4).
    Only statements, each closed by [exact], with Print Assumptions.
    Hypotheses about pton6 / ntop6 (inet_pton / inet_ntop for AF_INET6) are the ASSUMED laws of
-   the libc conversions, written out as premises; everything else is proved. *)
-From Coq Require Import NArith List.
+   the libc conversions, written out as premises; everything else is proved.
+
+   WHAT THE SOCKET-ADDRESS THEOREMS (M4) TRUST.  util/sock.c and util/sock_util.c call libc for
+   every text <-> number conversion.  Those calls are NOT verified code; the theorems are about
+   the model of the library's own glue around them, with these hand-written stand-ins for libc
+   (Util/SockText.v), each sampled against the real libc by the correspondence run:
+     - pton4   : inet_pton(AF_INET, ...) as glibc's inet_pton4 (dotted quad, no leading zeros);
+     - ntop4   : inet_ntop(AF_INET, ...) as "%u.%u.%u.%u";
+     - dec_digits (through fmt_interp): the %d of the port printer (asprintf "[%s]:%d");
+     - inet_pton / inet_ntop for AF_INET6: not modelled in the theorems at all; pton6 / ntop6 are
+       universally quantified and the laws used are PREMISES of each theorem (pton6 fills 16
+       bytes; pton6 (ntop6 a) = Some a; ntop6 a contains ':' and no NUL).  The executable
+       ntop6_glibc / pton6_glibc of SockText.v only run the extracted model; no theorem mentions
+       them, and nothing proves that they satisfy the premised laws;
+     - parse_port: PARSENUM_EX(&p, ports, 1, 65535, 10, 0).  This one is no longer a separate
+       trusted model: C17_parse_port_is_parsenum_spec / C17_parse_port_is_parsenum_model below
+       prove it equal, on every string, to the parsenum area's grammar-level spec and to its model
+       of the macro (strtoimax of Util/Strto.v, itself a model of glibc 2.36's, trusted there).
+   strlen / strchr / strrchr / strdup / memcpy / calloc are modelled on checked memory in Sock.v.
+   Host-name forms stop at the point where getaddrinfo would be called (RHost).
+
+   SCOPE OF THE ROUND TRIPS.  resolve (prettyprint sa) = sa is stated for CANONICAL structures
+   only, i.e. the ones sock_resolve itself builds (sa_ipv4 / sa_ipv6 / sa_unix of Sock.v):
+   sockaddr_in with zero sin_zero, sockaddr_in6 with zero flowinfo and scope id, sockaddr_un of
+   full size with sun_path zero-padded after the path; SOCK_STREAM; ports 1..65535 (port 0 prints
+   but is rejected by the parser); and ABSOLUTE Unix paths (first character '/', shorter than
+   sun_path) - a relative path prints as itself but resolves as a host name.  An address with
+   non-zero padding, flow label or scope prints to the same text as the canonical one and so does
+   NOT come back.  prettyprint of an AF_UNIX address reads sun_path up to a NUL without consulting
+   namelen (the model says Fault when there is none inside the block): only terminated names are
+   in scope, see the probe "sock.prettyprint-unix-unterminated" of the C15 run. *)
+From Coq Require Import NArith ZArith List.
 From LCP Require Import Base.CheckedMem Gen.Repo_codec Gen.Repo_codec2 Util.EndianMem Util.Endian Util.EndianProofs Util.B64 Util.B64Proofs Util.SockText Util.Sock Util.SockProofs.
+From LCP Require Util.ParsenumSpec Util.Parsenum Util.SockTextParsenum.
 Import ListNotations.
 Local Open Scope N_scope.
 
@@ -180,3 +211,34 @@ Theorem C17_pton4_ntop4 :
   pton4 (ntop4 [a0; a1; a2; a3]) = Some [a0; a1; a2; a3].
 Proof. exact SockTextProofs.pton4_ntop4. Qed.
 Print Assumptions C17_pton4_ntop4.
+
+(* ---------------- the port parser is the parsenum area's numeral parser ---------------- *)
+(* parse_port (the port parser the two literal theorems above are stated with) gives, on EVERY
+   string, what the grammar-level spec of PARSENUM_EX (Util/ParsenumSpec.v, C16) prescribes for a
+   signed 64-bit target (long p) with bounds 1..65535, base 10, no trailing characters: the value
+   when the spec accepts, nothing when it says EINVAL or ERANGE.  The four arguments are the ones
+   regenerated from util/sock.c (the statement type-checks only while they are 1, 65535, 10, 0). *)
+Theorem C17_parse_port_is_parsenum_spec :
+  forall s,
+  parse_port s = match ParsenumSpec.parse_spec ParsenumSpec.KSigned 64 1 65535 10 false s with
+                 | ParsenumSpec.OkV v => Some (Z.to_N v)
+                 | _ => None
+                 end.
+Proof. exact SockTextParsenum.parse_port_is_parse_spec. Qed.
+Print Assumptions C17_parse_port_is_parsenum_spec.
+
+(* ... and therefore the outcome of the parsenum area's MODEL of the macro on the C string
+   (checked memory; sd, strtod's answer, is irrelevant for an integer target), by
+   C16_parsenum_signed_exact: one proved numeral parser under the address theorems *)
+Theorem C17_parse_port_is_parsenum_model :
+  forall s sd, bytes_ok s -> no_nul s ->
+  Parsenum.map_res (fun o => match Parsenum.presult_of o with
+                             | ParsenumSpec.OkV v => Some (Z.to_N v)
+                             | _ => None
+                             end)
+    (Parsenum.parsenum_ex6 {| Parsenum.ck := ParsenumSpec.KSigned; Parsenum.cw := 64 |} (cstr s)
+                           (Z.of_N port_min) (Z.of_N port_max) (Z.of_N port_base)
+                           (negb (port_trailing =? 0)) sd)
+  = Ok (parse_port s).
+Proof. exact SockTextParsenum.parse_port_is_parsenum_ex. Qed.
+Print Assumptions C17_parse_port_is_parsenum_model.
